@@ -14,6 +14,7 @@ HDR = """from Reduino import target
 target("COM3")
 from Reduino.Communication import SerialMonitor
 from Reduino.Displays import LCD
+from Reduino.Sensors import Button
 from Reduino.Utils import sleep
 
 mon = SerialMonitor(9600)
@@ -67,10 +68,26 @@ def gen(rng):
             anims.append({"lcd": li, "row": r, "style": style, "text": text, "speed": speed, "loop": loop, "cols": cols,
                           "static_rows": static_rows})
     period = rng.choice([0, 1, 10, 50, 60, 250])
+    has_button = rng.random() < 0.35
+    if has_button:
+        # other injected housekeeping (button sampling) must not displace the animation ticks
+        L.append("btn = Button(19)")
     L.append("while True:")
     L.append("    mon.write(\"@p\")")
+    if has_button:
+        L.append("    mon.write(btn.is_pressed())")
     L.append(f"    sleep({period})")
     return "\n".join(L) + "\n", anims, lcds, period
+
+
+def must_write(a):
+    """Does the first tick of this animation necessarily write to the display?"""
+    n, cols = len(a["text"]), a["cols"]
+    if a["style"] in ("scroll", "blink"):
+        return True
+    if a["style"] == "typewriter":
+        return n >= 2 or n == 0
+    return n == 0 or n >= cols or (0 < n < cols)  # bounce always repaints
 
 
 def fw_monitor(events, anims, lcds, passes, t0):
@@ -143,6 +160,10 @@ def fw_monitor(events, anims, lcds, passes, t0):
                 problems.append(("too-fast", f"{a['style']} speed_ms={a['speed']}: steps at {prev_t:.1f} ms and {tk:.1f} ms"))
                 break
             prev_t = tk
+        # the transpiler guarantees the animation is advanced: enough virtual time for several steps but none happened
+        total_ms = (max((t for t, k, f in events), default=0) / 1000.0) - t0
+        if not step_passes and passes >= 3 and (a["speed"] == 0 or total_ms >= 4 * a["speed"]) and must_write(a):
+            problems.append(("never-ticked", f"{a['style']} on row {a['row']} (speed_ms={a['speed']}) was started but never advanced in {passes} passes / {total_ms:.0f} ms"))
         if not a["loop"]:
             if len(step_passes) > B:
                 problems.append(("non-looping-not-finished", f"non-looping {a['style']} (len {len(a['text'])}, cols {a['cols']}) still stepping after {len(step_passes)} steps (> bound {B})"))
